@@ -126,10 +126,18 @@ class DescriptorFormat:
             "sub_decay_pattern": sub_decay_pattern,
         }
         expected_wildcards = {"mother", "daughters"}
+
+        def find_wildcards(pattern: str) -> set[str]:
+            wildcards = set()
+            for _, field_name, format_spec, _ in string.Formatter().parse(pattern):
+                if isinstance(field_name, str):
+                    wildcards.add(field_name)
+                if format_spec:  # replacement fields may be nested in a format spec
+                    wildcards |= find_wildcards(format_spec)
+            return wildcards
+
         for pattern in new_config.values():
-            wildcards = {
-                t[1] for t in string.Formatter().parse(pattern) if isinstance(t[1], str)
-            }
+            wildcards = find_wildcards(pattern)
             if wildcards != expected_wildcards:
                 error_msg = (
                     "The pattern should only have the wildcards "
